@@ -10,9 +10,8 @@ horizons and — where a history is involved — all call histories.  `x.run = .
 
 Only theorems and non-vacuity examples here; helper lemmas live in SkVerif/Lemmas/Compose*.lean.
 -/
-import SkVerif.Lemmas.Compose
+import SkVerif.Lemmas.ComposeRun
 import SkVerif.Lemmas.ComposeAgg
-import SkVerif.Props.C01
 namespace SkVerif.C09
 open SkVerif SkVerif.Compose
 open W (bind_eq_ok pure_eq_ok lift_bind_eq_ok lift_eq_ok tell_bind_eq_ok fail_bind run_bind)
@@ -76,5 +75,349 @@ theorem agg_online_spec (vs : List Rat) : aggVals .online vs = aggVals .mean vs 
 
 example : aggVals .median [3, 1, 2] = 2 ∧ aggVals .median [4, 1, 3, 2] = 5 / 2 ∧ aggVals .mean [1, 2, 4] = 7 / 3
     ∧ aggVals .min [3, 1, 2] = 1 ∧ aggVals .max [3, 1, 2] = 3 := by decide +kernel
+
+/-! ## 2. EnsembleForecaster: the aggregate of independently fitted members -/
+
+/-- `fit`, from ANY earlier state: every member is a fresh clone (started from its `init`) fitted on
+exactly the series and horizon handed to the ensemble; nothing else reaches a member. -/
+theorem ensemble_fit_members_fresh (agg : Option Agg) (names : List String) (Fs : List Forecaster)
+    (st0 : (ensemble agg names Fs).S) (y : Series) (fh : Option Horizon)
+    (b : Base) (st : Option (States Fs)) (log : Log)
+    (h : ((ensemble agg names Fs).fit st0 y fh).run = .ok ((b, st), log)) :
+    ∃ ss, st = some ss ∧ (fitAll Fs y fh).run = .ok (ss, log) ∧ b.fh = effFh st0.1.fh fh ∧
+      ∀ i, i < Fs.length →
+        ∃ l, ((member Fs i).fit (member Fs i).init y fh).run = .ok (ss.get Fs i, l) :=
+  Lem.ensemble_fit_members_fresh agg names Fs st0 y fh b st log h
+
+/-- `update`: every member is updated, on its own, with exactly the batch and flag handed to the ensemble -/
+theorem ensemble_update_members (agg : Option Agg) (names : List String) (Fs : List Forecaster)
+    (b : Base) (ss : States Fs) (y : Series) (up : Bool)
+    (b' : Base) (st' : Option (States Fs)) (log : Log)
+    (h : ((ensemble agg names Fs).update (b, some ss) y up).run = .ok ((b', st'), log)) :
+    ∃ ss', st' = some ss' ∧ b' = b.updateYX y ∧ (updateAll Fs ss y up).run = .ok (ss', log) ∧
+      ∀ i, i < Fs.length →
+        ∃ l, ((member Fs i).update (ss.get Fs i) y up).run = .ok (ss'.get Fs i, l) :=
+  Lem.ensemble_update_members agg names Fs b ss y up b' st' log h
+
+/-- `predict`: the forecast is the chosen aggregate, row by row, of the members' forecasts for the
+remembered horizon; each member forecasts on its own from its own state.  Row `i` carries the first
+member's i-th label and `aggVals a` of the members' i-th values (`agg_*_spec` say what that is). -/
+theorem ensemble_predict_eq_aggregate (agg : Option Agg) (names : List String) (Fs : List Forecaster)
+    (b : Base) (ss : States Fs) (fh : Option Horizon)
+    (b' : Base) (st' : Option (States Fs)) (out : Series) (log : Log)
+    (h : ((ensemble agg names Fs).predict (b, some ss) fh).run = .ok (((b', st'), out), log)) :
+    ∃ a f ss' ps, agg = some a ∧ effFh b.fh fh = some f ∧ b' = { b with fh := some f } ∧ st' = some ss' ∧
+      (predictAll Fs ss (some f)).run = .ok ((ss', ps), log) ∧
+      ps.length = Fs.length ∧
+      (∀ i, i < Fs.length → ∃ p l, ps[i]? = some p ∧
+        ((member Fs i).predict (ss.get Fs i) (some f)).run = .ok ((ss'.get Fs i, p), l)) ∧
+      out = aggregate a ps ∧
+      (∀ i, i < nRows ps → ∃ lab, (firstLabels ps)[i]? = some lab ∧
+        out[i]? = some (lab, aggVals a (column ps i))) :=
+  Lem.ensemble_predict_eq_aggregate agg names Fs b ss fh b' st' out log h
+
+/-- INDEPENDENCE over histories.  Whatever the ensemble went through before, after `fit y fh0`
+followed by ANY fit-free history `ops` (updates and predicts in any order), the state of member `i`
+inside the ensemble is exactly the state member `i` reaches when it is cloned and run ON ITS OWN on
+`fit y fh0` followed by `memberOps … ops` (the same updates; predicts with the horizon the ensemble
+remembers).  No member influences another, and nothing but these calls reaches a member. -/
+theorem ensemble_members_independent (agg : Option Agg) (names : List String) (Fs : List Forecaster)
+    (st0 : (ensemble agg names Fs).S) (y : Series) (fh0 : Option Horizon) (ops : List Op) (hnf : noFit ops)
+    (st : (ensemble agg names Fs).S) (outs : List (Option Series)) (log : Log)
+    (h : ((ensemble agg names Fs).run st0 (.fit y fh0 :: ops)).run = .ok ((st, outs), log)) :
+    ∃ b ss, st = (b, some ss) ∧ ∀ i, i < Fs.length → ∃ oi li,
+      ((member Fs i).run (member Fs i).init (.fit y fh0 :: memberOps (fitFh st0.1.fh fh0) ops)).run
+        = .ok ((ss.get Fs i, oi), li) := by
+  obtain ⟨⟨b1, st1⟩, o, l1, os, l2, hstep, hrun, rfl, rfl⟩ := (Forecaster.run_cons_eq_ok _).mp h
+  obtain ⟨hf, rfl⟩ := (Forecaster.step_fit_eq_ok _).mp hstep
+  obtain ⟨ss1, rfl, _, hfh, hget⟩ := Lem.ensemble_fit_members_fresh agg names Fs st0 y fh0 b1 st1 l1 hf
+  obtain ⟨b', ss', rfl, hm⟩ := Lem.ensemble_run_members agg names Fs ops hnf b1 ss1 st os l2 hrun
+  refine ⟨b', ss', rfl, ?_⟩
+  intro i hi
+  obtain ⟨l, hl⟩ := hget i hi
+  obtain ⟨oi, li, hr⟩ := hm i hi
+  rw [hfh] at hr
+  exact ⟨none :: oi, l ++ li, (Forecaster.run_cons_eq_ok _).mpr
+    ⟨_, none, l, oi, li, (Forecaster.step_fit_eq_ok _).mpr ⟨hl, rfl⟩, hr, rfl, rfl⟩⟩
+
+/-- THE ENSEMBLE CLAUSE.  After `fit` and any fit-free history, a forecast of the ensemble is, row by
+row, the chosen aggregate of the forecasts that the members — each cloned, fitted and updated on its
+own with the same history — give for the remembered horizon. -/
+theorem ensemble_eq_aggregate_of_members (agg : Option Agg) (names : List String) (Fs : List Forecaster)
+    (st0 : (ensemble agg names Fs).S) (y : Series) (fh0 : Option Horizon) (ops : List Op) (hnf : noFit ops)
+    (st : (ensemble agg names Fs).S) (outs : List (Option Series)) (log : Log)
+    (h : ((ensemble agg names Fs).run st0 (.fit y fh0 :: ops)).run = .ok ((st, outs), log))
+    (fh : Option Horizon) (st' : (ensemble agg names Fs).S) (out : Series) (log' : Log)
+    (hp : ((ensemble agg names Fs).predict st fh).run = .ok ((st', out), log')) :
+    ∃ a f ps, agg = some a ∧ ps.length = Fs.length ∧
+      (∀ i, i < Fs.length → ∃ si oi li si' p li',
+        ((member Fs i).run (member Fs i).init (.fit y fh0 :: memberOps (fitFh st0.1.fh fh0) ops)).run
+          = .ok ((si, oi), li) ∧
+        ((member Fs i).predict si (some f)).run = .ok ((si', p), li') ∧ ps[i]? = some p) ∧
+      out = aggregate a ps ∧
+      (∀ i, i < nRows ps → ∃ lab, (firstLabels ps)[i]? = some lab ∧
+        out[i]? = some (lab, aggVals a (column ps i))) := by
+  obtain ⟨b, ss, rfl, hm⟩ := ensemble_members_independent agg names Fs st0 y fh0 ops hnf st outs log h
+  obtain ⟨b', st1⟩ := st'
+  obtain ⟨a, f, ss', ps, ha, _, _, _, _, hlen, hget, hout, hrows⟩ :=
+    Lem.ensemble_predict_eq_aggregate agg names Fs b ss fh b' st1 out log' hp
+  refine ⟨a, f, ps, ha, hlen, ?_, hout, hrows⟩
+  intro i hi
+  obtain ⟨oi, li, hr⟩ := hm i hi
+  obtain ⟨p, l, hp1, hp2⟩ := hget i hi
+  exact ⟨_, oi, li, _, p, l, hr, hp2, hp1⟩
+
+/-! ## 3. TransformedTargetForecaster -/
+
+/-- `fit`, from any earlier state: every transformer is a fresh clone fitted in pipeline order on the
+series transformed so far (`fitChain`), the fully transformed series `yt` is the raw series pushed
+through the fitted `transform`s in pipeline order, and the final forecaster is a fresh clone fitted
+on `yt` (with the horizon as given). -/
+theorem pipeline_fit_eq_spec (fixed : Bool) (Ts : List Transformer) (F : Forecaster)
+    (st0 : (pipelineG fixed Ts F).S) (y : Series) (fh : Option Horizon)
+    (b : Base) (st : Option (TStates Ts × F.S)) (log : Log)
+    (h : ((pipelineG fixed Ts F).fit st0 y fh).run = .ok ((b, st), log)) :
+    ∃ ts s yt l1 l2 l3, st = some (ts, s) ∧ (fitChain Ts y).run = .ok ((ts, yt), l1) ∧
+      (applyAll (transforms Ts ts) y).run = .ok (yt, l3) ∧
+      (F.fit F.init yt fh).run = .ok (s, l2) ∧ log = l1 ++ l2 := by
+  obtain ⟨ts, s, yt, l1, l2, rfl, h1, h2, rfl, _⟩ := Lem.pipeline_fit_ok fixed Ts F st0 y fh b st log h
+  obtain ⟨l3, h3⟩ := Lem.fitChain_transformed Ts y ts yt l1 h1
+  exact ⟨ts, s, yt, l1, l2, l3, rfl, h1, h3, h2, rfl⟩
+
+/-- `predict`: the forecast is the final forecaster's forecast for the remembered horizon, pushed
+through the inverse transforms of the transformers not tagged `skip-inverse-transform`, in REVERSE
+pipeline order.  (Holds for the update as coded and as repaired.) -/
+theorem pipeline_predict_eq_spec (fixed : Bool) (Ts : List Transformer) (F : Forecaster)
+    (b : Base) (ts : TStates Ts) (s : F.S) (fh : Option Horizon)
+    (b' : Base) (st' : Option (TStates Ts × F.S)) (out : Series) (log : Log)
+    (h : ((pipelineG fixed Ts F).predict (b, some (ts, s)) fh).run = .ok (((b', st'), out), log)) :
+    ∃ f s' p l1 l2, effFh b.fh fh = some f ∧ st' = some (ts, s') ∧
+      (F.predict s (some f)).run = .ok ((s', p), l1) ∧
+      (applyAll (inverses Ts ts).reverse p).run = .ok (out, l2) ∧ log = l1 ++ l2 := by
+  obtain ⟨f, s', p, l1, l2, hf, _, rfl, h1, h2, rfl⟩ := Lem.pipeline_predict_ok fixed Ts F b ts s fh b' st' out log h
+  rw [Lem.inverseChain_eq_reverse] at h2
+  exact ⟨f, s', p, l1, l2, hf, rfl, h1, h2, rfl⟩
+
+/- Full-strength statement of the invariant (`InnerSeesOnlyTransformed`, Spec/Compose.lean):
+   for ALL transformers, final forecasters, earlier states, series and fit-free histories, the final
+   forecaster has been through exactly `reprOps` of the history.  For the code as it is
+   (`pipeline = pipelineG false`) this is FALSE (`pipeline_as_coded_violates_invariant`): `update`
+   hands the raw batch on.  What is proved for the code as it is: the invariant over all histories
+   WITHOUT update; what is missing: histories with update.  The repaired `update`
+   (findings/C09-pipeline-update-transformed.patch = `pipelineG true`) satisfies it at full strength. -/
+
+/-- invariant for the code as it is, over all histories of fits and predicts (no update) -/
+theorem pipeline_inner_sees_only_transformed_partial (Ts : List Transformer) (F : Forecaster)
+    (st0 : (pipeline Ts F).S) (ts0 : TStates Ts) (y : Series) (fh0 : Option Horizon) (ops : List Op)
+    (hnf : noFit ops) (hnu : noUpdate ops)
+    (st : (pipeline Ts F).S) (outs : List (Option Series)) (log : Log)
+    (h : ((pipeline Ts F).run st0 (.fit y fh0 :: ops)).run = .ok ((st, outs), log)) :
+    ∃ b ts s iops lt oi li, st = (b, some (ts, s)) ∧
+      (reprOps Ts ts0 st0.1.fh (.fit y fh0 :: ops)).run = .ok ((ts, iops), lt) ∧
+      (F.run F.init iops).run = .ok ((s, oi), li) := by
+  obtain ⟨⟨b1, st1⟩, o, l1, os, l2, hstep, hrun, rfl, rfl⟩ := (Forecaster.run_cons_eq_ok _).mp h
+  obtain ⟨hf, rfl⟩ := (Forecaster.step_fit_eq_ok _).mp hstep
+  obtain ⟨ts1, s1, yt, la, lb, rfl, hc, hF, rfl, hfh⟩ := Lem.pipeline_fit_ok false Ts F st0 y fh0 b1 st1 l1 hf
+  obtain ⟨b', ts', s', iops, lt, oi, li, rfl, hr, hi⟩ :=
+    Lem.pipeline_run false Ts F ops hnf (Or.inr hnu) b1 ts1 s1 st os l2 hrun
+  rw [hfh] at hr
+  refine ⟨b', ts', s', .fit yt fh0 :: iops, la ++ lt, none :: oi, lb ++ li, rfl, ?_, ?_⟩
+  · simp only [reprOps, fitFh]
+    refine W.bind_eq_ok.mpr ⟨(ts1, yt), la, lt, hc, ?_, rfl⟩
+    exact W.bind_eq_ok.mpr ⟨(ts', iops), lt, [], hr, rfl, by simp⟩
+  · exact (Forecaster.run_cons_eq_ok _).mpr
+      ⟨_, none, lb, oi, li, (Forecaster.step_fit_eq_ok _).mpr ⟨hF, rfl⟩, hi, rfl, rfl⟩
+
+/-- the invariant at full strength (all histories, updates included) for the repaired `update` -/
+theorem pipeline_repaired_inner_sees_only_transformed : InnerSeesOnlyTransformed true := by
+  intro Ts F st0 ts0 y fh0 ops hnf st outs log h
+  obtain ⟨⟨b1, st1⟩, o, l1, os, l2, hstep, hrun, rfl, rfl⟩ := (Forecaster.run_cons_eq_ok _).mp h
+  obtain ⟨hf, rfl⟩ := (Forecaster.step_fit_eq_ok _).mp hstep
+  obtain ⟨ts1, s1, yt, la, lb, rfl, hc, hF, rfl, hfh⟩ := Lem.pipeline_fit_ok true Ts F st0 y fh0 b1 st1 l1 hf
+  obtain ⟨b', ts', s', iops, lt, oi, li, rfl, hr, hi⟩ :=
+    Lem.pipeline_run true Ts F ops hnf (Or.inl rfl) b1 ts1 s1 st os l2 hrun
+  rw [hfh] at hr
+  refine ⟨b', ts', s', .fit yt fh0 :: iops, la ++ lt, none :: oi, lb ++ li, rfl, ?_, ?_⟩
+  · simp only [reprOps, fitFh]
+    refine W.bind_eq_ok.mpr ⟨(ts1, yt), la, lt, hc, ?_, rfl⟩
+    exact W.bind_eq_ok.mpr ⟨(ts', iops), lt, [], hr, rfl, by simp⟩
+  · exact (Forecaster.run_cons_eq_ok _).mpr
+      ⟨_, none, lb, oi, li, (Forecaster.step_fit_eq_ok _).mpr ⟨hF, rfl⟩, hi, rfl, rfl⟩
+
+/-- the calls the final forecaster of `pipeline [doubler] spy` has received after a run -/
+def innerCalls (r : Except Err (((pipeline [doubler] spy).S × List (Option Series)) × Log)) : Option (List Op) :=
+  match r with
+  | .ok ((st, _), _) => st.2.map (fun x => x.2)
+  | .error _ => none
+
+def witnessOps : List Op := [.fit [(0, 1), (1, 2)] (some [1]), .update [(2, 3)] true]
+
+/-- NEGATION at a concrete witness: for the code as it is the full-strength invariant is false.
+Pipeline [x ↦ 2x] around the spy, `fit` on (0,1),(1,2) then `update` with (2,3): the final forecaster
+is fitted on (0,2),(1,4) and then updated with the RAW (2,3); the transformed representation of the
+batch is (2,6). -/
+theorem pipeline_as_coded_violates_invariant : ¬ InnerSeesOnlyTransformed false := by
+  intro H
+  have hp : innerCalls ((pipeline [doubler] spy).run (pipeline [doubler] spy).init witnessOps).run
+      = some [Op.fit [(0, 2), (1, 4)] (some [1]), Op.update [(2, 3)] true] := by decide +kernel
+  have hq : ((reprOps [doubler] ((), ()) none witnessOps).run.toOption.map (fun r => r.1.2))
+      = some [Op.fit [(0, 2), (1, 4)] (some [1]), Op.update [(2, 6)] true] := by decide +kernel
+  cases hx : ((pipeline [doubler] spy).run (pipeline [doubler] spy).init witnessOps).run with
+  | error e => rw [hx] at hp; simp [innerCalls] at hp
+  | ok r =>
+    obtain ⟨⟨st, outs⟩, log⟩ := r
+    rw [hx] at hp
+    obtain ⟨b, ts, s, iops, lt, oi, li, rfl, hr, hi⟩ :=
+      H [doubler] spy (pipeline [doubler] spy).init ((), ()) [(0, 1), (1, 2)] (some [1]) [.update [(2, 3)] true]
+        (by intro op hop; simp only [List.mem_singleton] at hop; subst hop; rfl) st outs log hx
+    have hs1 : s = [Op.fit [(0, 2), (1, 4)] (some [1]), Op.update [(2, 3)] true] := by
+      exact Option.some.inj (hp : some s = some _)
+    have hr' : (reprOps [doubler] ((), ()) none witnessOps).run = .ok ((ts, iops), lt) := hr
+    rw [hr'] at hq
+    have hq1 : iops = [Op.fit [(0, 2), (1, 4)] (some [1]), Op.update [(2, 6)] true] := by
+      simpa [Except.toOption] using hq
+    have hs := Lem.spy_run_state iops [] s oi li hi
+    rw [List.nil_append, hs1, hq1] at hs
+    exact absurd hs (by decide)
+
+example : noFit [Op.update [(2, 3)] true] ∧ noUpdate [Op.predict none, Op.predict (some [1, 2])] := by
+  constructor
+  · intro op hop; simp at hop; subst hop; rfl
+  · intro op hop; simp at hop; rcases hop with rfl | rfl <;> rfl
+
+/-! ## 4. MultiplexForecaster -/
+
+/-- selection is BY NAME: the multiplexer is the wrapper `muxOn` around the first member whose name
+equals `selected_forecaster` (names are unique once `_check_forecasters` has passed) -/
+theorem multiplexer_selects_by_name (sel : Option String) (names : List String) (Fs : List Forecaster)
+    (F : Forecaster) (h : select sel names Fs = some F) :
+    mux sel names Fs = muxOn (checkMembers names Fs.length) F ∧
+    ∃ (i : Nat) (n : String), names[i]? = some n ∧ sel = some n ∧ Fs[i]? = some F ∧
+      ∀ (j : Nat), j < i → ∀ m, names[j]? = some m → sel ≠ some m := by
+  refine ⟨by unfold mux; rw [h], Lem.select_spec sel names Fs F h⟩
+
+/-- THE MULTIPLEXER CLAUSE (bisimulation with the selected member).  Whatever happened before, `fit`
+followed by any fit-free history on the multiplexer succeeds only if the SAME history (predicts
+carrying the remembered horizon explicitly, `memberOps`) succeeds on a fresh clone of the selected
+member run on its own — with the same outputs, call by call, the same log, and the member's state
+inside the multiplexer equal to the stand-alone member's state. -/
+theorem multiplexer_bisim_selected (chk : Except Err Unit) (F : Forecaster)
+    (st0 : (muxOn chk F).S) (y : Series) (fh0 : Option Horizon) (ops : List Op) (hnf : noFit ops)
+    (st : (muxOn chk F).S) (outs : List (Option Series)) (log : Log)
+    (h : ((muxOn chk F).run st0 (.fit y fh0 :: ops)).run = .ok ((st, outs), log)) :
+    ∃ b s, st = (b, some s) ∧
+      (F.run F.init (.fit y fh0 :: memberOps (fitFh st0.1.fh fh0) ops)).run = .ok ((s, outs), log) := by
+  obtain ⟨⟨b1, st1⟩, o, l1, os, l2, hstep, hrun, rfl, rfl⟩ := (Forecaster.run_cons_eq_ok _).mp h
+  obtain ⟨hf, rfl⟩ := (Forecaster.step_fit_eq_ok _).mp hstep
+  obtain ⟨s1, rfl, hF, hfh, _⟩ := Lem.mux_fit_ok chk F st0 y fh0 b1 st1 l1 hf
+  obtain ⟨b', s', rfl, hr⟩ := Lem.mux_run chk F ops hnf b1 s1 st os l2 hrun
+  rw [hfh] at hr
+  exact ⟨b', s', rfl, (Forecaster.run_cons_eq_ok _).mpr
+    ⟨_, none, l1, os, l2, (Forecaster.step_fit_eq_ok _).mpr ⟨hF, rfl⟩, hr, rfl, rfl⟩⟩
+
+/-- when every `predict` carries an explicit canonical horizon, the member receives the history verbatim -/
+theorem multiplexer_passes_explicit_history_verbatim (ops : List Op) (cur : Option Horizon)
+    (h : ∀ fh, Op.predict fh ∈ ops → ∃ f, fh = some f ∧ checkFh f = .ok f) : memberOps cur ops = ops :=
+  Lem.memberOps_explicit ops cur h
+
+example : select (some "b") ["a", "b"] [idle, spy] = some spy := by
+  simp [select]
+
+/-! ## 5. StackingForecaster -/
+
+/- Full-strength statement of the stacking clause: `StackTrainsOnHoldoutOnly (fun _ _ => True)`
+   (Spec/Compose.lean) — for EVERY horizon the hold-out window lies after the members' training
+   window.  For the code as it is this is FALSE (`stack_insample_horizon_leaks`): a horizon with a
+   step ≤ 0 makes the "hold-out" positions part of the training window.  Proved: the clause for all
+   out-of-sample horizons that fit into the series; missing: horizons with non-positive steps. -/
+
+/-- the stacking clause for every out-of-sample horizon: strictly increasing steps ≥ 1, largest ≤ n -/
+theorem stack_meta_trained_on_holdout_only_partial : StackTrainsOnHoldoutOnly OutOfSample := by
+  intro names Fs G st0 y fh b st log h f hf hP
+  obtain ⟨f', train, test, yF, yM, ss, ss', ps, g, ss2, l1, l2, l3, l4, hf', _, hsp, hyF, hyM, h1, h2, h3, _, rfl, _⟩ :=
+    Lem.stack_fit_ok names Fs G st0 y fh b st log h
+  rw [hf'] at hf; cases hf
+  rw [Lem.holdoutSplit_outOfSample y.length f hP] at hsp
+  simp only [Except.ok.injEq, Prod.mk.injEq] at hsp
+  obtain ⟨rfl, rfl⟩ := hsp
+  obtain ⟨ha, hb, hc⟩ := Lem.holdout_window_after_train y.length f hP
+  exact ⟨_, _, yF, yM, ss, ss', ps, g, l1, l2, l3, ss2, Lem.holdoutSplit_outOfSample y.length f hP, hyF, hyM, h1, h2, h3, rfl,
+    ha, hb, hc⟩
+
+/-- what `y.iloc[train]` is: as many observations as positions, the i-th one being `y` at the i-th position -/
+theorem stack_training_window_is_prefix (y : Series) (m : Int) (yF : Series)
+    (h : iloc y (arange 0 m) = .ok yF) :
+    yF.length = m.toNat ∧ ∀ i, i < m.toNat → yF[i]? = y[i]? := by
+  obtain ⟨hlen, hget⟩ := Lem.iloc_spec y _ yF h
+  rw [SkVerif.Lem.arange_length] at hlen
+  refine ⟨by simpa using hlen, ?_⟩
+  intro i hi
+  obtain ⟨p, hp, _, _, hr⟩ := hget i (by rw [SkVerif.Lem.arange_length]; simpa using hi)
+  rw [SkVerif.Lem.arange_eq] at hp
+  simp only [Int.sub_zero, List.getElem?_map, List.getElem?_range hi, Option.map_some, Option.some.injEq] at hp
+  rw [hr, ← hp]
+  simp
+
+/-- members are refitted on ALL data: after a successful `fit y fh` (any horizon) the members kept by
+the stacking forecaster are fresh clones fitted on the whole `y` with the remembered horizon -/
+theorem stack_members_refit_on_all (names : List String) (Fs : List Forecaster) (G : Regressor)
+    (st0 : (stacking names Fs G).S) (y : Series) (fh : Option Horizon)
+    (b : Base) (st : Option (States Fs × G.S)) (log : Log)
+    (h : ((stacking names Fs G).fit st0 y fh).run = .ok ((b, st), log)) :
+    ∃ f ss2 g l, b.fh = some f ∧ st = some (ss2, g) ∧ (fitAll Fs y (some f)).run = .ok (ss2, l) ∧
+      ∀ i, i < Fs.length →
+        ∃ li, ((member Fs i).fit (member Fs i).init y (some f)).run = .ok (ss2.get Fs i, li) := by
+  obtain ⟨f, train, test, yF, yM, ss, ss', ps, g, ss2, l1, l2, l3, l4, hf, _, _, _, _, _, _, _, h4, rfl, _⟩ :=
+    Lem.stack_fit_ok names Fs G st0 y fh b st log h
+  exact ⟨f, ss2, g, l4, hf, rfl, h4, fitAll_get Fs y (some f) ss2 l4 h4⟩
+
+/-- `predict`: the meta-regressor (unchanged since `fit`) applied to the rows of the members' current
+forecasts, labelled cutoff + horizon -/
+theorem stack_predict_eq_regressor_of_members (names : List String) (Fs : List Forecaster) (G : Regressor)
+    (b : Base) (ss : States Fs) (g : G.S) (fh : Option Horizon)
+    (b' : Base) (st' : Option (States Fs × G.S)) (out : Series) (log : Log)
+    (h : ((stacking names Fs G).predict (b, some (ss, g)) fh).run = .ok (((b', st'), out), log)) :
+    ∃ f ss' ps v l1 l2, b'.fh = some f ∧ st' = some (ss', g) ∧
+      (predictAll Fs ss none).run = .ok ((ss', ps), l1) ∧
+      (G.predict g (rowsOf (nRows ps) ps)).run = .ok (v, l2) ∧
+      out = (predIndex b.cutoff f).zip v ∧ log = l1 ++ l2 := by
+  obtain ⟨f, ss', ps, v, l1, l2, hf, _, rfl, h1, h2, rfl, rfl⟩ :=
+    Lem.stack_predict_ok names Fs G b ss g fh b' st' out log h
+  exact ⟨f, ss', ps, v, l1, l2, hf, rfl, h1, h2, rfl, rfl⟩
+
+/-- NEGATION at a concrete witness: with the horizon [0] on a series of two observations the
+"hold-out" position 1 is inside the training window {0, 1}: the members see the window. -/
+theorem stack_insample_horizon_leaks : ¬ StackTrainsOnHoldoutOnly (fun _ _ => True) := by
+  intro H
+  have hb : (((stacking ["a"] [spy] nullReg).fit (stacking ["a"] [spy] nullReg).init [(0, 1), (1, 2)] (some [0])).run.toOption.map
+      (fun r => r.1.1.fh)) = some (some [0]) := by decide +kernel
+  cases hx : ((stacking ["a"] [spy] nullReg).fit (stacking ["a"] [spy] nullReg).init [(0, 1), (1, 2)] (some [0])).run with
+  | error e => rw [hx] at hb; simp [Except.toOption] at hb
+  | ok r =>
+    obtain ⟨⟨b, st⟩, log⟩ := r
+    rw [hx] at hb
+    simp only [Except.toOption, Option.map_some, Option.some.injEq] at hb
+    obtain ⟨train, test, yF, yM, ss, ss', ps, g, l1, l2, l3, ss2, hsp, _, _, _, _, _, _, hlt, _, _⟩ :=
+      H ["a"] [spy] nullReg _ _ _ b st log hx [0] hb trivial
+    have hd : holdoutSplit 2 [0] = .ok ([0, 1], [1]) := by decide +kernel
+    have : holdoutSplit ([((0 : Int), (1 : Rat)), (1, 2)] : Series).length [0] = .ok (train, test) := hsp
+    rw [show ([((0 : Int), (1 : Rat)), (1, 2)] : Series).length = 2 from rfl, hd] at this
+    simp only [Except.ok.injEq, Prod.mk.injEq] at this
+    obtain ⟨rfl, rfl⟩ := this
+    exact absurd (hlt 1 (by simp) 1 (by simp)) (by omega)
+
+example : OutOfSample [1, 3] 6 := by
+  refine ⟨by simp, by simp, by intro h hh; simp at hh; omega, by decide⟩
+
+/-! ## 6. Nesting: members are machines and composites are machines -/
+
+/-- every composite is again a forecaster machine, so all theorems above apply with composites as
+members, to any depth: e.g. the ensemble clause for an ensemble of (a pipeline around a multiplexer)
+and (a stacking forecaster of a pipeline and a leaf) -/
+example (T : Transformer) (A B C : Forecaster) (G : Regressor) (y : Series) (ops : List Op) (hnf : noFit ops)
+    (st outs log) :=
+  ensemble_members_independent (some .median) ["p", "s"]
+    [pipeline [T] (mux (some "b") ["a", "b"] [A, B]), stacking ["x", "y"] [pipeline [T] C, A] G]
+    (ensemble _ _ _).init y (some [1, 2]) ops hnf st outs log
 
 end SkVerif.C09
